@@ -139,6 +139,8 @@ def finish(ctx: Ctx, level: str = "other") -> int:
                 if not changed:
                     # the analysed sources are the reference sources: the checker itself is broken
                     raise AnalysisError(msg)
+                if any(any(p_.startswith(prefix) or prefix.startswith(p_) for p_ in prefixes) for prefixes, _cp, _by in ctx._established):
+                    continue        # the values these sites compute were decided by a value rule on this tree
                 # a changed tree: the sites were restructured beyond what the rule recognises - no verdict on them
                 ctx.unverified(prefix, "instance-count", msg + f"; changed files: {changed[:6]}")
 
